@@ -112,8 +112,9 @@ def worker(shard, nshards, plan):
             except Exception:
                 continue  # C05
             order_pos = oe.order_positions(tree)
+            total = oe.order_is_total(tree)
             limited = oe.has_limit(tree)
-            if limited and order_pos is None:
+            if limited and order_pos is None and not total:
                 continue
             if out != sql:
                 res["nontrivial"] += 1
@@ -130,7 +131,7 @@ def worker(shard, nshards, plan):
                 except oe.EngineError as e:
                     bad = (data, f"target engine rejects the transpiled text: {str(e)[:120]}")
                     break
-                why = oe.compare_results(ref[1], got[1], order_pos)
+                why = oe.compare_results(ref[1], got[1], order_pos, total)
                 if why:
                     bad = (data, f"{why}: {src} returns {oe.norm_rows(ref[1])[:5]}, {dst} returns {oe.norm_rows(got[1])[:5]}")
                     break
